@@ -65,9 +65,15 @@ VARIANTS = [
     ensure_sorted=False,
     lock=None,
     append=False,''')]),
-    dict(name='is_cooler membership guard removed', props=['C15', 'C13'], edits=[(FO, '''        if grouppath not in f:
-            return False
-        return _is_cooler(f[grouppath])''', '''        return _is_cooler(f[grouppath])''')]),
+    dict(name='is_cooler dangling-link handler removed', props=['C15', 'C13'], edits=[(FO, '''        try:
+            grp = f[grouppath]
+        except KeyError:
+            return False  # dangling link
+        return _is_cooler(grp)''', '''        return _is_cooler(f[grouppath])''')]),
+    dict(name='visititems names children by obj.name again', props=['C15'], edits=[(FO, '''                name = path.rstrip("/") + "/" + key''', '''                name = child.obj.name''')]),
+    dict(name='visititems no longer skips dangling children', props=['C15'], edits=[(FO, '''                if child.obj is None:
+                    continue  # dangling link
+''', '')]),
     dict(name='rename deletes before link', props=['C15'], edits=[(FO, '''                src[dst_group] = src[src_group]
                 if rename:
                     del src[src_group]''', '''                if rename:
@@ -88,10 +94,10 @@ VARIANTS = [
     dict(name='rename enum from old names', props=['C18'], edits=[(CR, '        idmap = dict(zip(new_names, range(n_chroms)))\n        chrom_ids = bins["chrom"].cat.codes', '        idmap = dict(zip(chroms.index.values, range(n_chroms)))\n        chrom_ids = bins["chrom"].cat.codes')]),
     dict(name='refresh dropped', props=['C18'], edits=[(CR, '        _rename_chroms(f, rename_dict, h5opts)\n    clr._refresh()\n', '        _rename_chroms(f, rename_dict, h5opts)\n')]),
     dict(name='refresh inside with', props=['C18'], edits=[(CR, '        _rename_chroms(f, rename_dict, h5opts)\n    clr._refresh()\n', '        _rename_chroms(f, rename_dict, h5opts)\n        clr._refresh()\n')]),
-    dict(kind='refactor', name='try/except KeyError instead of membership test', props=['C15', 'C13'], edits=[(FO, '''        if grouppath not in f:
+    dict(kind='refactor', name='membership test spelt with not (... in ...)', props=['C15', 'C13'], edits=[(FO, '''        if grouppath not in f:
             return False
-        return _is_cooler(f[grouppath])''', '''        if not (grouppath in f):
+        try:''', '''        if not (grouppath in f):
             return False
-        return _is_cooler(f[grouppath])''')]),
+        try:''')]),
     dict(kind='refactor', name='logging changes in create', props=['C13', 'C15', 'C17', 'C01', 'C02'], edits=[(CR, '        logger.info("Writing indexes")\n', '        logger.debug("indexes")\n')]),
 ]
